@@ -10,11 +10,13 @@ ENGINES = {
  "leak": ("harness/src/leak.rs + vlib/leakeng.py + tools/gen_leak.py", "tracing capture + Display/Debug rendering of returned values under canary scenarios, mapped onto regenerated Lean tables"),
  "atrest": ("harness/src/atrest.rs + vlib/atresteng.py + lean/Driver/AtrestDrv.lean", "constructor x file-state x keyring-state matrix against a mock keyring-core store, concurrent first opens, canary byte scan, mode bits"),
  "conc": ("harness/src/conc.rs + vlib/conceng.py", "N threads on one shared backend instance; linearizability search certified on the Lean model; stress oracles"),
- "crash": ("harness/src/crash.rs + vlib/crasheng.py", "simulated process death at every storage tick of every call on a file-backed sqlite store"),
+ "crash": ("harness/src/crash.rs + vlib/crasheng.py + harness/src/crashw.rs + vlib/crashweng.py + vlib/c12core.py + lean/Driver/CrashCoreDrv.lean", "simulated process death at every storage tick of every storage call AND of every mdk-core call (process_message, merge_pending_commit, welcomes, local operations) on a file-backed sqlite store, reopen, loadability + recovery oracle; crash-class sequences compared with Model.CrashCore"),
  "codec": ("harness/src/codec.rs + vlib/codeceng.py + lean/Driver/CodecDrv.lean", "correspondence + oracle engine over the real (de)serialisers of mdk-core; generated values and every single-field mutation"),
  "invite": ("harness/src/invite.rs (on harness/src/world.rs) + vlib/inviteeng.py + vlib/check_C16.py + lean/Driver/InviteDrv.lean", "invitation histories on real MDK instances replayed on Model.Welcome; oracle on the implementation's own views"),
  "world": ("harness/src/world.rs + vlib/worldeng.py + vlib/check_world.py + lean/Driver/WorldDrv.lean", "2..6 real MDK instances (memory/SQLite), pool of wrapper events, scheduled deliveries with duplication/reordering/restarts, replayed step by step on Model.Client; convergence / frame / sync / duplicate oracles"),
  "know": ("harness/src/invite.rs + vlib/knoweng.py + vlib/check_C03.py + lean/Driver/KnowDrv.lean", "observers fed every event ever published; knowledge model replay"),
+ "appmsg": ("harness/src/appmsg.rs (on harness/src/world.rs) + vlib/appmsgeng.py + vlib/check_C04.py + lean/Driver/AppMsgDrv.lean", "adversarial application messages crafted with OpenMLS directly (chosen pubkey/id/timestamp/kind/tags, cross-group wraps, replays, stale ex-member) delivered to a real MDK receiver on memory and SQLite; replayed on Model.AppMsg; oracle over the stored rows"),
+ "mediaw": ("harness/src/codec.rs (media ops) + harness/src/mediaw.rs (on harness/src/world.rs) + vlib/mediaeng.py + vlib/check_C17.py + lean/Driver/MediaDrv.lean", "HKDF context / AAD correspondence over the real key derivation, and media histories on real MDK instances (encrypt, announce, commits, decrypt at members/non-members, tampers, group images) replayed on Model.MediaEpoch"),
  "media": ("harness/src/codec.rs (media ops) + harness/src/world.rs + vlib/mediaeng.py", "HKDF context / AAD correspondence and epoch-hint histories"),
 }
 def main():
